@@ -117,10 +117,10 @@ inline std::vector<Sub>& registry() { static std::vector<Sub> r; return r; }
 // Case must provide: std::string dump() const; static Case parse(const KV&);
 template <class Case>
 void registerCheck(const std::string& name, std::function<rc::Gen<Case>()> gen, std::function<std::string(const Case&)> body, bool heavy = false,
-	std::function<Case(const Case&)> minimizer = nullptr) {
+	std::function<Case(const Case&)> minimizer = nullptr, long heavyShrinkBudget = 12) {
 	Sub s;
 	s.name = name;
-	s.runGen = [name, gen, body, heavy, minimizer](int n, int maxSize, uint64_t seed) -> bool {
+	s.runGen = [name, gen, body, heavy, minimizer, heavyShrinkBudget](int n, int maxSize, uint64_t seed) -> bool {
 		auto& S = st();
 		S.curSub = name;
 		S.writeCurrent = heavy;
@@ -137,7 +137,7 @@ void registerCheck(const std::string& name, std::function<rc::Gen<Case>()> gen, 
 		auto g = gen();
 		// shrinking budget: after the first failure only a bounded number of further executions is spent on shrinking
 		// (heavy cases cost seconds each); once it is used up every candidate is skipped, which ends rapidcheck's search
-		long shrinkBudget = heavy ? 12 : 20000;
+		long shrinkBudget = heavy ? heavyShrinkBudget : 20000;
 		bool failedOnce = false;
 		auto result = rc::detail::checkTestable([&]() {
 			Case c = *g;
